@@ -20,7 +20,21 @@ def handler(job):
         kw.update(weight="persistence", weight_params={"n": g["wn"]})
     else:
         kw.update(weight="linear_ramp", weight_params=dict(zip(("low", "high", "start", "end"), g["ramp"])))
-    pim = PersistenceImager(**kw)
+    via = g.get("via")
+    if via:
+        # history: the imager is built for ANOTHER window and the target ranges are assigned afterwards (translate: same pixel counts,
+        # the window only moves; resize: the pixel counts change); the image must be that of the configuration the attributes report
+        ps = g["pixel_size"]
+        tb, tp = kw["birth_range"], kw["pers_range"]
+        if via == "translate":
+            kw["birth_range"] = (tb[0] + 3 * ps, tb[1] + 3 * ps); kw["pers_range"] = (tp[0] + 2 * ps, tp[1] + 2 * ps)
+        else:
+            kw["birth_range"] = (tb[0], tb[0] + ps); kw["pers_range"] = (tp[0] - ps, tp[0] + ps)
+        pim = PersistenceImager(**kw)
+        pim.birth_range = tb
+        pim.pers_range = tp
+    else:
+        pim = PersistenceImager(**kw)
     out = {"attrs": [fl(pim.birth_range[0]), fl(pim.pers_range[0]), fl(pim.pixel_size), int(pim.resolution[0]), int(pim.resolution[1])], "imgs": []}
     # intdtype: True = every diagram as an integer array; "mixed" = diagrams 0, 4, 5, 7 integer and the others float (the same points
     # must give the same image whatever the container's dtype)
